@@ -3,6 +3,7 @@ CONSTANTS
   MinusFusion = TRUE
   ColonFusion = TRUE
   FuseAnyLiteral = FALSE
+  RawStringNames = TRUE
   DotAlways = FALSE
   Quick = TRUE
 INVARIANTS DocConsistent AsBuilt SitesAreReal Emit
